@@ -280,7 +280,7 @@ FAMILIES["arrmeth"] = {
             for f in ["rise_indices", "fall_indices", "is_sorted_up", "is_sorted_down"]
         ] + [
             {"kind": "fn", "name": "Array::" + f, "file": "src/algorithm/monadic/mod.rs", "impl": r"^impl<T: ArrayValue> Array<T> \{", "fn": f}
-            for f in ["classify", "deduplicate", "unique", "count_unique"]
+            for f in ["classify", "deduplicate", "unique", "count_unique", "occurrences"]
         ]},
     ],
 }
